@@ -15,9 +15,11 @@ package utils
 //@   nopanic
 //@   ensures result <= x && result <= y && (result == x || result == y)
 
+// a function of the string (used as such in the specifications of keyword / unit matching)
 //@ func AsciiLower
 //@   props C06 C07 C08
 //@   nopanic
+//@   pure
 //@   modifies nothing
 //@   ensures (len(s) == 0) == (len(result) == 0)
 //@   loop 1 invariant fresh(out)
